@@ -33,7 +33,7 @@ AXES = {
     "122": ((Fraction(1, 3), Fraction(2, 3), Fraction(2, 3)), (Fraction(2, 3), Fraction(-2, 3), Fraction(1, 3)),
             (Fraction(2, 3), Fraction(1, 3), Fraction(-2, 3))),
 }
-HALF = {"74": (Fraction(4, 5), Fraction(3, 5)), "106": (Fraction(3, 5), Fraction(4, 5)),
+HALF = {"5.73": (Fraction(1599, 1601), Fraction(80, 1601)), "74": (Fraction(4, 5), Fraction(3, 5)), "106": (Fraction(3, 5), Fraction(4, 5)),
         "135": (Fraction(5, 13), Fraction(12, 13)), "254": (Fraction(-3, 5), Fraction(4, 5)),
         "-74": (Fraction(4, 5), Fraction(-3, 5)), "-225": (Fraction(-5, 13), Fraction(-12, 13))}
 
@@ -225,6 +225,12 @@ def jobs(tier, seed):
         for half in ("74", "-74") if tier == "quick" else ("74", "-74", "135", "254"):
             js.append({"name": f"angle|on operation|{face} edge {slot}|{half}", "fn": "run_angle_on_operation",
                        "params": {"axis": "122", "half": half, "face": face, "slot": slot}})
+    # a small sector (5.73 deg) down to radius 0.05: a proper arc close to, but outside, the collinearity cut-off
+    a0 = list(AXES)[-1]
+    for fn in (("angle", "origin") if tier == "quick" else ()):
+        js.append({"name": f"{fn}|axis={a0}|5.73", "fn": f"run_{fn}", "params": {"axis": a0, "half": "5.73"}})
+    if tier == "quick":
+        js.append({"name": f"arc3|axis={a0}|5.73|mid", "fn": "run_arc3", "params": {"axis": a0, "half": "5.73", "where": "mid"}})
     js.append({"name": "angle|axis=122 non-unit x2|106", "fn": "run_angle", "params": {"axis": "122", "half": "106", "axis_scale": 6}})
     for kind in ("spline", "polyline"):
         for n in (2, 3):
